@@ -240,7 +240,7 @@ def check(case):
                 if case["infinite"]:
                     continue
                 tgt = float(tf)
-                arg = None
+                arg = None if not case.get("against") else np.float64(tgt)      # (declared over the mirrored span: every call names its target)
             else:
                 tgt = float(t0 + op[1] * (tf - t0))
                 arg = np.float64(tgt)
